@@ -533,6 +533,8 @@ def opObjCheckout (j : Lean.Json) : Except String Lean.Json := do
     let o ← str e "oid"
     let l ← linkOf (← str e "link")
     pure (k, ({ oid := o, link := l, toCache := boolOf e "to_cache" } : Checkout.WFile))
+  -- a workspace entry that cannot be read (the harness reports its content as "broken": a link to nothing)
+  let broken := ws.any fun e => e.2.oid = "broken"
   let target ← (← arr j "target").toList.mapM fun e => do
     let k ← keyOf (← e.getObjVal? "key")
     let o ← str e "oid"
@@ -542,8 +544,9 @@ def opObjCheckout (j : Lean.Json) : Except String Lean.Json := do
   let prompt := match j.getObjVal? "prompt" with | .ok (.bool b) => some b | _ => none
   let cfg : Checkout.Cfg := { force := boolOf j "force", relink := boolOf j "relink", prompt, types }
   let order := (ws.map (·.1)) ++ (target.map (·.1))
-  let r := Checkout.checkout cfg cache ws target order order
+  let r := Checkout.checkoutFrom cfg cache ws broken target order order
   let out := match r.outcome with
+    | .unreadable => Lean.Json.mkObj [("err", "FileNotFoundError")]
     | .ok b => Lean.Json.mkObj [("ok", .bool b)]
     | .promptError k => Lean.Json.mkObj [("err", "PromptError"), ("path", keyTo k)]
     | .checkoutError ks => Lean.Json.mkObj [("err", "CheckoutError"), ("paths", Lean.Json.arr (ks.map keyTo).toArray)]
